@@ -185,3 +185,73 @@ def coq_values(v, arr):
         bits = flat.astype(code).view("u" + code[1])
         return "[%s]" % "; ".join("VBits %d%%N" % int(b) for b in bits)
     return "[%s]" % "; ".join("VInt (%d)" % int(x) for x in flat)
+
+
+# ------------------------------------------------------------------ a reference DAP4 server (WSGI)
+class Dap4App:
+    """Serves a dataset description (Node tree) over DAP4: <path>.dmr and <path>.dap?dap4.ce=<fqn><hyperslab>.
+    Records the query strings it receives in .seen."""
+
+    def __init__(self, root, little=True, chunk_sizes=()):
+        self.root, self.little, self.chunk_sizes = root, little, tuple(chunk_sizes)
+        self.seen = []
+
+    def __call__(self, environ, start_response):
+        from urllib.parse import unquote
+        path = environ.get("PATH_INFO", "")
+        q = unquote(environ.get("QUERY_STRING", ""))
+        self.seen.append((path, q))
+        if path.endswith(".dmr"):
+            body = render_dmr(self.root)
+            start_response("200 OK", [("Content-Type", "application/vnd.opendap.dap4.dataset-metadata+xml"),
+                                      ("Content-Length", str(len(body)))])
+            return [body]
+        if path.endswith(".dap"):
+            try:
+                body = self.dap(q)
+            except Exception as e:  # noqa
+                msg = ("bad constraint: %r" % (e,)).encode()
+                start_response("400 Bad Request", [("Content-Type", "text/plain"), ("Content-Length", str(len(msg)))])
+                return [msg]
+            start_response("200 OK", [("Content-Type", "application/vnd.opendap.dap4.data"),
+                                      ("Content-Length", str(len(body)))])
+            return [body]
+        start_response("404 Not Found", [("Content-Type", "text/plain")])
+        return [b"not found"]
+
+    def dap(self, q):
+        import re
+        assert q.startswith("dap4.ce=")
+        ce = q[len("dap4.ce="):]
+        m = re.match(r"^([^\[]+)((\[[^\]]*\])*)$", ce)
+        fqn, slab = m.group(1), m.group(2)
+        var = None
+        for v in variables(self.root):
+            if v.path.lstrip("/") == fqn.lstrip("/"):
+                var = v
+        if var is None:
+            raise KeyError(fqn)
+        idx = []
+        for part in re.findall(r"\[([^\]]*)\]", slab):
+            t = [int(x) for x in part.split(":")]
+            if len(t) == 1:
+                idx.append(slice(t[0], t[0] + 1, 1))
+            elif len(t) == 2:
+                idx.append(slice(t[0], t[1] + 1, 1))
+            else:
+                idx.append(slice(t[0], t[2] + 1, t[1]))
+        if len(idx) > len(var.shape):
+            raise IndexError("too many hyperslabs")
+        arr = var.values[tuple(idx)] if idx else var.values
+        # the response DMR declares only that variable (inside its groups), with the constrained extents
+        sub = Node(self.root.name)
+        cur = sub
+        parts = [p for p in var.path.split("/") if p]
+        for g in parts[:-1]:
+            n = Node(g)
+            cur.members.append(n)
+            cur = n
+        cur.members.append(Var(var.name, var.type, [("anon", int(e)) for e in arr.shape], arr))
+        ser = serialize([(var, arr)], self.little)
+        payload = b"".join(raw + cks for raw, cks in ser)
+        return respond(render_dmr(sub), payload, self.little, self.chunk_sizes)
